@@ -50,6 +50,7 @@ func main() {
 	canaryFired := flag.Int("canary-fired", 0, "thorough tier: number of canaries on which the expected rule fired")
 	canaryFailed := flag.String("canary-failed", "", "thorough tier: canaries that did not fire (rule has gone blind)")
 	dumpAnchors := flag.String("dump-anchors", "", "run every property and write the fingerprints of all functions looked up by name to this file (maintenance: regenerates anchors.json)")
+	sweep := flag.String("sweep", "", "maintenance (seed / refactoring sweeps): comma-separated property ids or 'all'; loads -repo once, runs those rule tables and prints their VIOLATION:/UNDECIDED: lines; writes no evidence and is not a registered check")
 	dumpOpt := flag.String("dump-optderef", "", "maintenance: list optional-element dereferences in these comma-separated packages")
 	flag.Parse()
 	if *dumpOpt == "explore" {
@@ -111,6 +112,9 @@ func main() {
 		os.WriteFile(strings.TrimSuffix(*dumpAnchors, "anchors.json")+"fields.json", append(fb, '\n'), 0o644)
 		fmt.Printf("%d unexported anchors fingerprinted\n", len(out))
 		return
+	}
+	if *sweep != "" {
+		os.Exit(runSweep(*sweep, *repo, *verif))
 	}
 	if *list {
 		var ids []string
@@ -228,4 +232,57 @@ func main() {
 		}
 	}
 	os.Exit(ctx.Finish(*verif, known, start, seed))
+}
+
+// runSweep runs several rule tables on one loaded program (maintenance only: the sweeps over
+// seeded changes and refactorings; the registered checks always run one property per process).
+func runSweep(which, repo, verif string) int {
+	var ids []string
+	if which == "all" {
+		for k := range table {
+			ids = append(ids, k)
+		}
+	} else {
+		ids = strings.Split(which, ",")
+	}
+	sort.Strings(ids)
+	p, err := core.Load(repo, nil)
+	if err != nil || len(p.All) < 40 {
+		fmt.Printf("UNDECIDED: ALL load:failed at -: %v\n", err)
+		return 1
+	}
+	if b, err := os.ReadFile(filepath.Join(verif, "anchors.json")); err == nil {
+		json.Unmarshal(b, &p.Anchors)
+		p.ResolveAnchors()
+		if fb, err := os.ReadFile(filepath.Join(verif, "fields.json")); err == nil {
+			json.Unmarshal(fb, &p.Structs)
+			p.ResolveFields()
+		}
+	}
+	known, err := core.LoadKnown(filepath.Join(verif, "known_findings.json"))
+	if err != nil {
+		fmt.Printf("UNDECIDED: ALL known_findings:unreadable at -: %v\n", err)
+		return 1
+	}
+	rc := 0
+	for _, id := range ids {
+		run, ok := table[id]
+		if !ok {
+			continue
+		}
+		func() {
+			defer func() {
+				if r := recover(); r != nil {
+					fmt.Printf("UNDECIDED: %s checker:panic at -: %v\n", id, r)
+					rc = 1
+				}
+			}()
+			ctx := core.NewCtx(p, id, "quick")
+			run(ctx)
+			if ctx.PrintBad(known) > 0 {
+				rc = 1
+			}
+		}()
+	}
+	return rc
 }
